@@ -308,3 +308,125 @@ class Lemma_URDF_joint_factor(Contract):
         lhs = S.Exp6(Sv * th)
         rhs = S.RpT(rot_axis(S.arr(list(a)), th), S.arr([0 * th, 0 * th, 0 * th]))
         g.eq('Exp6((a, 0) theta) = [Rot(a, theta), 0]', lhs, rhs)
+
+
+def _urdf_reference_fk(path, th_of):
+    """the file's own semantics, computed independently of the library with xml.etree and numpy: successive joint origins
+    (xyz, fixed-axis rpy) each followed by a rotation about the joint axis, along the chain with the most descendants"""
+    import xml.etree.ElementTree as ET
+
+    def rx(a):
+        c, s = _np.cos(a), _np.sin(a)
+        return _np.array([[1, 0, 0], [0, c, -s], [0, s, c]])
+
+    def ry(a):
+        c, s = _np.cos(a), _np.sin(a)
+        return _np.array([[c, 0, s], [0, 1, 0], [-s, 0, c]])
+
+    def rz(a):
+        c, s = _np.cos(a), _np.sin(a)
+        return _np.array([[c, -s, 0], [s, c, 0], [0, 0, 1]])
+    root = ET.parse(path).getroot()
+    joints = []
+    for j in root.findall('joint'):
+        o = j.find('origin')
+        xyz = [float(x) for x in (o.get('xyz') if o is not None and o.get('xyz') else '0 0 0').split()]
+        rpy = [float(x) for x in (o.get('rpy') if o is not None and o.get('rpy') else '0 0 0').split()]
+        a = j.find('axis')
+        axis = [float(x) for x in a.get('xyz').split()] if a is not None else [1.0, 0.0, 0.0]
+        lim = j.find('limit')
+        joints.append(dict(name=j.get('name'), type=j.get('type'), parent=j.find('parent').get('link'),
+                           child=j.find('child').get('link'), xyz=xyz, rpy=rpy, axis=axis,
+                           lo=float(lim.get('lower')) if lim is not None and lim.get('lower') is not None else -2 * _np.pi,
+                           hi=float(lim.get('upper')) if lim is not None and lim.get('upper') is not None else 2 * _np.pi))
+    children = {}
+    for j in joints:
+        children.setdefault(j['parent'], []).append(j)
+    all_children = set(j['child'] for j in joints)
+    roots = [l.get('name') for l in root.findall('link') if l.get('name') not in all_children]
+
+    def leaves(link):
+        js = children.get(link, [])
+        return 1 if not js else sum(leaves(j['child']) for j in js)
+    link = 'world' if 'world' in roots else roots[0]
+    chain = []
+    while children.get(link):
+        js = children[link]
+        best = js[0]
+        for j in js:
+            if leaves(j['child']) > leaves(best['child']):
+                best = j
+        chain.append(best)
+        link = best['child']
+    moving = [j for j in chain if j['type'] != 'fixed']
+    th = th_of(moving)
+    M = _np.eye(4)
+    k = 0
+    for j in chain:
+        O = _np.eye(4)
+        O[0:3, 0:3] = rz(j['rpy'][2]) @ ry(j['rpy'][1]) @ rx(j['rpy'][0])
+        O[0:3, 3] = j['xyz']
+        M = M @ O
+        if j['type'] != 'fixed':
+            a = _np.array(j['axis'], dtype=float)
+            a = a / _np.linalg.norm(a)
+            K = _np.array([[0, -a[2], a[1]], [a[2], 0, -a[0]], [-a[1], a[0], 0]])
+            R = _np.eye(4)
+            R[0:3, 0:3] = _np.eye(3) + _np.sin(th[k]) * K + (1 - _np.cos(th[k])) * (K @ K)
+            M = M @ R
+            k += 1
+    return M, moving, th
+
+
+@register
+class URDF_bundled_files_probes(Contract):
+    """BOUNDED native stand-in (probes; never counted as proved): the URDF files bundled with the test-suite (they use
+    visual / collision / mesh elements outside the subset the symbolic documents model) are loaded by the native loader and
+    FK is compared, at three joint vectors inside the declared limits each, with the file's own semantics computed
+    independently with xml.etree and numpy; degrees of freedom, joint names and limits as written"""
+    prop = 'C13'
+    target = ARM + ':loadArmFromURDF'
+    tol = 1e-6
+    FILES = ('ur5.urdf', 'irb_2400.urdf', 'puma_560.urdf')
+    probes = [dict(file=float(f), k=float(k)) for f in range(3) for k in range(3)]
+    shape_bound = 'probes: 3 bundled files x 3 joint vectors, native code'
+
+    def setup(self, g):
+        return (), {}
+
+    def run(self, g, fn, args, kwargs):
+        f, k = g.real('file', lo=0.0, hi=2.0), g.real('k', lo=0.0, hi=2.0)
+        if g.mode != 'concrete':
+            return None
+        repo = os.environ.get('PYVC_REPO', '/repo')
+        path = os.path.join(repo, 'tests', 'test_helpers', self.FILES[int(round(f))])
+        if not os.path.exists(path):
+            # a scratch copy holding only the package: the bundled files are inputs, take them from /repo; skip if absent
+            path = os.path.join('/repo', 'tests', 'test_helpers', self.FILES[int(round(f))])
+            if not os.path.exists(path):
+                from pyvc.contract import Reject
+                raise Reject('bundled URDF file not present')
+            repo = '/repo'
+        rng = _np.random.RandomState(100 + int(round(k)))
+
+        def th_of(moving):
+            return _np.array([j['lo'] + (j['hi'] - j['lo']) * (0.15 + 0.7 * rng.rand()) for j in moving])
+        M, moving, th = _urdf_reference_fk(path, th_of)
+        cwd = os.getcwd()
+        os.chdir(repo)      # mesh file names in the bundled files are resolved relative to the repository root
+        try:
+            arm = g.module(ARM).loadArmFromURDF(path)
+        finally:
+            os.chdir(cwd)
+        return arm, M, moving, th
+
+    def post(self, g, out, args, kwargs):
+        if out is None:
+            g.holds('probe-only contract: %d inputs are run on the native code' % len(self.probes), len(self.probes) > 0)
+            return
+        arm, M, moving, th = out
+        g.holds('degrees of freedom = moving joints along the main chain', arm.num_dof == len(moving))
+        g.holds('joint names in file order', list(arm.joint_names) == [j['name'] for j in moving])
+        g.eq('lower limits as written', _np.array(arm.joint_mins, dtype=float), _np.array([j['lo'] for j in moving]))
+        g.eq('upper limits as written', _np.array(arm.joint_maxs, dtype=float), _np.array([j['hi'] for j in moving]))
+        g.eq('FK = successive origin transforms and joint rotations of the file', arm.FK(th.copy()).gTM(), M)
